@@ -2,6 +2,11 @@
 //! `VLQDecoder`, row decoder) is independent of the sizes of the buffers `fill_buf` returns.
 //!
 //!   C14 avro <batch_size> <file-hex> <chunk sizes> <header_len>
+//!   C14 flight <frames hdrhex:bodyhex,…> <pending polls before each frame> <ipc chunk sizes>
+//!     Flight decoder = IPC messages per frame: the frames are decoded by `FlightRecordBatchStream`
+//!     from a ready stream, from a stream that returns `Pending` the given number of times before
+//!     each frame, and — re-framed as an IPC stream (marker, length, header, body) — by the IPC
+//!     `StreamDecoder` fed the given chunks; all three must agree (model: SKIP).
 //!
 //! The file is read through a `BufRead` that hands out exactly the given chunks.  Oracle: same
 //! batches / outcome as reading the whole file from one buffer and one byte at a time, every
@@ -96,6 +101,9 @@ fn run_case(line: &str) -> (String, Vec<(String, String)>) {
     let t: Vec<&str> = line.split(' ').collect();
     assert_eq!(t[0], "C14");
     let mut fails = vec![];
+    if t[1] == "flight" {
+        return run_flight(&t);
+    }
     if t[1] != "avro" {
         return ("bad-op".into(), fails);
     }
@@ -244,6 +252,236 @@ fn gen_case(rng: &mut Rng) -> (String, String) {
     (format!("C14 avro {} {} {} {}", bs, hex(&data), show_list(&sizes), hdr), tags.join(" "))
 }
 
+// ---------------------------------------------------------------------------------------- Flight
+
+use arrow_flight::FlightData;
+use arrow_flight::decode::FlightRecordBatchStream;
+use arrow_flight::encode::FlightDataEncoderBuilder;
+use arrow_flight::error::FlightError;
+use futures::{Stream, StreamExt, TryStreamExt};
+use std::collections::VecDeque;
+use std::pin::Pin;
+use std::task::{Context, Poll};
+
+/// a stream that is `Pending` (and immediately re-woken) `pend[i]` times before yielding frame i
+struct Lazy {
+    items: VecDeque<FlightData>,
+    pend: VecDeque<usize>,
+}
+impl Stream for Lazy {
+    type Item = Result<FlightData, FlightError>;
+    fn poll_next(mut self: Pin<&mut Self>, cx: &mut Context<'_>) -> Poll<Option<Self::Item>> {
+        if let Some(p) = self.pend.front_mut() {
+            if *p > 0 {
+                *p -= 1;
+                cx.waker().wake_by_ref();
+                return Poll::Pending;
+            }
+        }
+        self.pend.pop_front();
+        Poll::Ready(self.items.pop_front().map(Ok))
+    }
+}
+
+fn flight_decode(frames: &[FlightData], pend: &[usize]) -> Outcome {
+    let frames = frames.to_vec();
+    let pend: VecDeque<usize> = (0..=frames.len()).map(|i| pend.get(i).copied().unwrap_or(0)).collect();
+    let r = std::panic::catch_unwind(std::panic::AssertUnwindSafe(move || {
+        let mut st = FlightRecordBatchStream::new_from_flight_data(Lazy { items: frames.into(), pend });
+        let mut batches = vec![];
+        let mut verdict = "ok".to_string();
+        futures::executor::block_on(async {
+            loop {
+                match st.next().await {
+                    Some(Ok(b)) => batches.push(b),
+                    Some(Err(_)) => {
+                        verdict = "ERR".into();
+                        break;
+                    }
+                    None => break,
+                }
+            }
+        });
+        Outcome { batches, verdict }
+    }));
+    r.unwrap_or_else(|_| Outcome { batches: vec![], verdict: "PANIC".into() })
+}
+
+/// the same messages as an IPC stream through the push `StreamDecoder`
+fn flight_as_ipc(frames: &[FlightData], sizes: &[usize]) -> Outcome {
+    let mut bytes = vec![];
+    for f in frames {
+        bytes.extend_from_slice(&[0xff; 4]);
+        bytes.extend_from_slice(&(f.data_header.len() as u32).to_le_bytes());
+        bytes.extend_from_slice(&f.data_header);
+        bytes.extend_from_slice(&f.data_body);
+    }
+    let r = std::panic::catch_unwind(std::panic::AssertUnwindSafe(|| {
+        let mut d = arrow_ipc::reader::StreamDecoder::new();
+        let mut batches = vec![];
+        let mut p = 0;
+        let mut sizes: Vec<usize> = sizes.to_vec();
+        let total: usize = sizes.iter().sum();
+        if total < bytes.len() {
+            sizes.push(bytes.len() - total);
+        }
+        for n in sizes {
+            let n = n.min(bytes.len() - p);
+            let mut x = arrow_buffer::Buffer::from(bytes[p..p + n].to_vec());
+            p += n;
+            while !x.is_empty() {
+                match d.decode(&mut x) {
+                    Ok(Some(b)) => batches.push(b),
+                    Ok(None) => {}
+                    Err(e) => {
+                        if std::env::var("VERIF_LOUD").is_ok() {
+                            eprintln!("ipc err: {e}");
+                        }
+                        return Outcome { batches, verdict: "ERR".into() };
+                    }
+                }
+            }
+        }
+        // feed one more (EOS) prefix so that a final message with an empty body is dispatched
+        let mut x = arrow_buffer::Buffer::from(vec![0xffu8, 0xff, 0xff, 0xff, 0, 0, 0, 0]);
+        while !x.is_empty() {
+            match d.decode(&mut x) {
+                Ok(Some(b)) => batches.push(b),
+                Ok(None) => {}
+                Err(e) => {
+                    if std::env::var("VERIF_LOUD").is_ok() {
+                        eprintln!("ipc eos err: {e}");
+                    }
+                    return Outcome { batches, verdict: "ERR".into() };
+                }
+            }
+        }
+        if std::env::var("VERIF_LOUD").is_ok() {
+            eprintln!("bytes {} schema {} first16 {:?}", bytes.len(), d.schema().is_some(), &bytes[..16.min(bytes.len())]);
+        }
+        let fin = d.finish();
+        if let (Err(e), true) = (&fin, std::env::var("VERIF_LOUD").is_ok()) {
+            eprintln!("ipc finish err: {e}");
+        }
+        let verdict = if fin.is_ok() { "ok" } else { "ERR" };
+        Outcome { batches, verdict: verdict.into() }
+    }));
+    r.unwrap_or_else(|_| Outcome { batches: vec![], verdict: "PANIC".into() })
+}
+
+fn parse_frames(s: &str) -> Vec<FlightData> {
+    if s == "-" {
+        return vec![];
+    }
+    s.split(',')
+        .map(|f| {
+            let (h, b) = f.split_once(':').unwrap();
+            FlightData { flight_descriptor: None, data_header: unhex(h).into(), app_metadata: Default::default(), data_body: unhex(b).into() }
+        })
+        .collect()
+}
+
+fn run_flight(t: &[&str]) -> (String, Vec<(String, String)>) {
+    let frames = parse_frames(t[2]);
+    let pend: Vec<usize> = parse_list(t[3]);
+    let sizes: Vec<usize> = parse_list(t[4]);
+    let mut fails = vec![];
+    let ready = flight_decode(&frames, &[]);
+    let given = flight_decode(&frames, &pend);
+    if given != ready {
+        fails.push((format!("lazy stream {} != ready stream {}", given.short(), ready.short()), "oracle:chunk-dep".to_string()));
+    }
+    // every frame delayed alone
+    for i in 0..=frames.len() {
+        let mut p = vec![0; frames.len() + 1];
+        p[i] = 2;
+        let o = flight_decode(&frames, &p);
+        if o != ready {
+            fails.push((format!("frame {} delayed {} != ready {}", i, o.short(), ready.short()), "oracle:chunk-dep".to_string()));
+            break;
+        }
+    }
+    // as an IPC stream: given chunking, single chunk, byte-wise; only meaningful when every frame
+    // carries a valid message (the flight decoder skips nothing either)
+    let ipc_given = flight_as_ipc(&frames, &sizes);
+    let ipc_one = flight_as_ipc(&frames, &[]);
+    let ipc_bytes = flight_as_ipc(&frames, &vec![1; frames.iter().map(|f| 8 + f.data_header.len() + f.data_body.len()).sum()]);
+    for (name, o) in [("ipc-chunked", &ipc_given), ("ipc-bytewise", &ipc_bytes)] {
+        if *o != ipc_one {
+            fails.push((format!("{} {} != ipc-single {}", name, o.short(), ipc_one.short()), "oracle:chunk-dep".to_string()));
+        }
+    }
+    if ready.verdict == "ok" && ipc_one.verdict == "ok" && ready.batches != ipc_one.batches {
+        fails.push((format!("flight {} != same messages as IPC stream {}", ready.short(), ipc_one.short()), "oracle:flight-vs-ipc".to_string()));
+    }
+    if (ready.verdict == "ok") != (ipc_one.verdict == "ok") {
+        fails.push((format!("flight {} vs IPC stream {}", ready.short(), ipc_one.short()), "oracle:flight-vs-ipc-outcome".to_string()));
+    }
+    (given.short(), fails)
+}
+
+fn gen_flight(rng: &mut Rng) -> (String, String) {
+    let schema = Arc::new(Schema::new(vec![Field::new("id", DataType::Int64, true), Field::new("s", DataType::Utf8, true)]));
+    let nb = rng.usize(4);
+    let mut batches = vec![];
+    for _ in 0..nb {
+        let n = *rng.pick(&[0usize, 1, 3, 9, 40]);
+        let ids: Vec<Option<i64>> = (0..n).map(|_| if rng.chance(1, 5) { None } else { Some(rng.range(-50, 50)) }).collect();
+        let ss: Vec<Option<String>> = (0..n).map(|_| if rng.chance(1, 5) { None } else { Some("y".repeat(rng.usize(6))) }).collect();
+        let cols: Vec<ArrayRef> = vec![Arc::new(Int64Array::from(ids)), Arc::new(StringArray::from(ss))];
+        batches.push(RecordBatch::try_new(schema.clone(), cols).unwrap());
+    }
+    let max = *rng.pick(&[64usize, 200, 2 * 1024 * 1024]);
+    let mut tags = vec!["op:flight".to_string(), format!("max:{}", max)];
+    let enc = FlightDataEncoderBuilder::new()
+        .with_max_flight_data_size(max)
+        .with_schema(schema.clone())
+        .build(futures::stream::iter(batches.into_iter().map(Ok)));
+    let mut frames: Vec<FlightData> = futures::executor::block_on(enc.try_collect()).unwrap();
+    match rng.below(8) {
+        0 if frames.len() > 1 => {
+            let i = 1 + rng.usize(frames.len() - 1);
+            frames.remove(i);
+            tags.push("mut:drop-frame".into());
+        }
+        1 if frames.len() > 1 => {
+            let i = 1 + rng.usize(frames.len() - 1);
+            let f = frames[i].clone();
+            frames.insert(i, f);
+            tags.push("mut:dup-frame".into());
+        }
+        2 if !frames.is_empty() => {
+            frames.remove(0);
+            tags.push("mut:no-schema".into());
+        }
+        3 if !frames.is_empty() => {
+            let f = frames[0].clone();
+            frames.push(f);
+            tags.push("mut:schema-again".into());
+        }
+        _ => {}
+    }
+    let pend: Vec<usize> = (0..=frames.len()).map(|_| if rng.bool() { 0 } else { rng.usize(4) }).collect();
+    let total: usize = frames.iter().map(|f| 8 + f.data_header.len() + f.data_body.len()).sum();
+    let mut sizes = vec![];
+    let mut left = total;
+    while left > 0 {
+        let m = *rng.pick(&[3usize, 40, 400]);
+        let n = (1 + rng.usize(m)).min(left);
+        sizes.push(n);
+        if rng.chance(1, 6) {
+            sizes.push(0);
+        }
+        left -= n;
+    }
+    if pend.iter().any(|&p| p > 0) {
+        tags.push("nt".into());
+    }
+    tags.push(format!("frames:{}", frames.len().min(9)));
+    let fs: Vec<String> = frames.iter().map(|f| format!("{}:{}", hex(&f.data_header), hex(&f.data_body))).collect();
+    (format!("C14 flight {} {} {}", show_list(&fs), show_list(&pend), show_list(&sizes)), tags.join(" "))
+}
+
 fn main() {
     let args = parse_args();
     if std::env::var("VERIF_LOUD").is_err() {
@@ -266,9 +504,9 @@ fn main() {
         }
     } else {
         let mut rng = Rng::new(args.seed ^ 0xC14A);
-        let n = n_cases(&args, 250, 5000);
-        for _ in 0..n {
-            let (line, tags) = gen_case(&mut rng);
+        let n = n_cases(&args, 400, 8000);
+        for i in 0..n {
+            let (line, tags) = if i % 8 < 5 { gen_case(&mut rng) } else { gen_flight(&mut rng) };
             emit(&mut sink, line, tags);
         }
     }
